@@ -149,15 +149,35 @@ where
     }
 
     fn datetime(&self, mut naive: NaiveDateTime) -> Self::DateTime {
-        loop {
-            if let Some(dt) = self.tz.from_local_datetime(&naive).latest() {
-                return dt;
-            }
+        if let Some(dt) = self.tz.from_local_datetime(&naive).latest() {
+            return dt;
+        }
 
+        // This local time doesn't exist: find the first minute of local time that is valid
+        // again.
+        let mut valid = loop {
             naive = naive
                 .checked_add_signed(TimeDelta::minutes(1))
                 .expect("no valid datetime for time zone");
+
+            if let Some(dt) = self.tz.from_local_datetime(&naive).latest() {
+                break dt;
+            }
+        };
+
+        // The transition may not be aligned to a minute (which is common for the first
+        // transition of a time zone from its local mean time): step back to the first valid
+        // second.
+        for _ in 0..59 {
+            naive -= TimeDelta::seconds(1);
+
+            match self.tz.from_local_datetime(&naive).latest() {
+                Some(dt) => valid = dt,
+                None => break,
+            }
         }
+
+        valid
     }
 
     fn event_time(&self, date: NaiveDate, event: TimeEvent) -> NaiveTime {
